@@ -3,7 +3,7 @@
    empty / engaged / the receiver itself) each member ends, without a lifetime error, in the same
    wrapper states as the model function the refinement theorems are about. *)
 From Common Require Import Prelude.
-From C09 Require Import Model Spec Micro MicroProofs.
+From C09 Require Import Model Spec Env Micro MicroProofs.
 From C09.gen Require Import Facts.
 Local Open Scope N_scope.
 
@@ -86,3 +86,12 @@ Lemma sem_any_copy w x : any_copy_sem gen_holder (gen_any AMCopyCtor) w x = Some
 Proof. reflexivity. Qed.
 Lemma sem_any_copy_assign : gen_any AMCopyAssign = [TTempCopy; TMoveFromTemp] /\ gen_holder = HUnique.
 Proof. split; reflexivity. Qed.
+
+(* getEnvVar: engaged with the converted string iff getenv returned non-null *)
+Lemma sem_env atoi atof k str i : env_sem atoi atof (gen_env k) k str i = Some (m_getenv atoi atof k str i).
+Proof. destruct k; reflexivity. Qed.
+Lemma sem_traits :
+  tf_eq_noeq gen_traits = false /\ tf_impl_noeq_false gen_traits = true /\ tf_same_dispatch gen_traits = true /\
+  tf_eq_int gen_traits = true /\ tf_eq_string gen_traits = true /\ tf_eq_payload gen_traits = true /\
+  tf_impl_eq_shape gen_traits = true.
+Proof. repeat split; reflexivity. Qed.
